@@ -39,7 +39,9 @@ URISets == {<<R1>>, <<R2>>, <<R3>>, <<R4>>, <<R5>>, <<R1, R3>>, <<R2, R4>>, <<R3
 
 \* globs: "G1" = https://*.client.example/cb ; "G2" = https://client.example/** ; "G3" = http://localhost:*/cb
 GlobCfgs == {[globs |-> <<>>, optIn |-> FALSE], [globs |-> <<"G1">>, optIn |-> TRUE], [globs |-> <<"G2">>, optIn |-> TRUE],
-             [globs |-> <<"G3">>, optIn |-> TRUE], [globs |-> <<"G2">>, optIn |-> FALSE]}
+             [globs |-> <<"G3">>, optIn |-> TRUE], [globs |-> <<"G2">>, optIn |-> FALSE],
+             \* "Gbad" = a malformed pattern ("https://client.example/[") the client opted into: it matches nothing
+             [globs |-> <<"Gbad">>, optIn |-> TRUE]}
 
 Regs == {[app |-> a, dev |-> d, uris |-> us, globs |-> g.globs, optIn |-> g.optIn] :
             a \in {"web", "native", "ua"}, d \in BOOLEAN, us \in URISets, g \in GlobCfgs}
@@ -62,6 +64,7 @@ GlobMatch(g, u) ==
 
 GlobInstance(g) ==
   CASE g = "G1" -> U("https", "", "sub.reg", "", "/cb", "", "")
+    [] g = "Gbad" -> U("https", "", "reg", "", "/other", "", "")
     [] g = "G2" -> U("https", "", "reg", "", "/cb/x", "", "")
     [] OTHER    -> U("http", "", "localhost", "p2", "/cb", "", "")
 
